@@ -3,6 +3,7 @@ module verifharness
 go 1.21
 
 require (
+	github.com/anishathalye/porcupine v1.3.0
 	github.com/johannesboyne/gofakes3 v0.0.0
 	github.com/spf13/afero v1.2.1
 	go.etcd.io/bbolt v1.3.5
